@@ -4,9 +4,13 @@ import (
 	"bytes"
 	"errors"
 	"net"
+	"net/http"
+	"net/http/httptest"
 	"strings"
 	"testing"
 	"time"
+
+	"github.com/gorilla/websocket"
 )
 
 // RFC 2617 §2 ("Aladdin" / "open sesame") and §3.5 (Mufasa) — golden vectors
@@ -174,5 +178,44 @@ func TestClientAgainstScriptedPeer(t *testing.T) {
 	}
 	if !bytes.HasSuffix(c.Captured(), []byte("garbage")) || fe.Offset != len(c.Captured())-7 {
 		t.Fatalf("capture/offset: %d %q", fe.Offset, c.Captured())
+	}
+}
+
+// The ws reader: one item per message, empty messages and merged / split items
+// are framing errors; the reader can go on after an empty message.
+func TestWSMessageBoundaries(t *testing.T) {
+	up := websocket.Upgrader{Subprotocols: []string{"rtsp"}}
+	srv := httptest.NewServer(http.HandlerFunc(func(w http.ResponseWriter, r *http.Request) {
+		ws, err := up.Upgrade(w, r, nil)
+		if err != nil {
+			return
+		}
+		defer ws.Close()
+		ws.ReadMessage()
+		ok := "RTSP/1.0 200 OK\r\nCSeq: 1\r\n\r\n"
+		ws.WriteMessage(websocket.BinaryMessage, []byte(ok))
+		ws.WriteMessage(websocket.BinaryMessage, nil)
+		ws.WriteMessage(websocket.BinaryMessage, []byte("$\x00\x00\x01a"))
+		ws.WriteMessage(websocket.BinaryMessage, []byte(ok+"$\x00\x00\x01a"))
+	}))
+	defer srv.Close()
+	c, err := DialWS("ws"+strings.TrimPrefix(srv.URL, "http")+"/streams/x", 5*time.Second, nil)
+	if err != nil {
+		t.Fatal(err)
+	}
+	defer c.Close()
+	r, err := c.Do("OPTIONS", "rtsp://h/x", nil, nil)
+	if err != nil || r.Status != 200 {
+		t.Fatalf("first message: %v", err)
+	}
+	var fe *FramingError
+	if _, err = c.ReadItem(); !errors.As(err, &fe) || fe.What != "empty ws message" {
+		t.Fatalf("empty message: %v", err)
+	}
+	if it, err := c.ReadItem(); err != nil || it.Frame == nil {
+		t.Fatalf("frame after the empty message: %v", err)
+	}
+	if _, err = c.ReadItem(); !errors.As(err, &fe) || !strings.Contains(fe.What, "more than one item") {
+		t.Fatalf("merged message: %v", err)
 	}
 }
